@@ -15,6 +15,8 @@ def run(ctx):
     ctx.level = "exploration"
     r = tlc.run_tlc("TestTables", init="Init", nxt="Next")
     ctx.model("Tables.tla constant relations (ASSUME)", r)
+    r = tlc.run_tlc("ImagePixel", workers=16, constants=dict(MaxC=3, MaxW=2) if quick else dict(MaxC=4, MaxW=3), invariants=["InclusionExclusionIsMass", "Additive", "NonNegativeAtMostOne"], heap="6g")
+    ctx.model("ImagePixel: corner inclusion-exclusion of the box CDF = overlap mass, additive over a pixel grid, within [0,1]", r)
     imgs.run(ctx, "C11", 150 if quick else 1500, 4 if quick else 30)
 
 
